@@ -52,12 +52,16 @@ func distPointSeg(p, a, b [3]float64) float64 {
 
 // footprintDistance returns a lower and an upper bound of the distance between the voxel's footprint
 // (quadrilateral spanned by its four corners on the ellipsoid) and the chord a-b.
-func footprintDistance(b ref.Box, a3, b3 [3]float64) (lower, upper float64) {
+// stopBelow: the search stops as soon as the lower bound is known to be <= stopBelow (the caller only asks whether the
+// footprint is farther than that); pass a negative value for the exact bounds.
+func footprintDistance(b ref.Box, a3, b3 [3]float64, stopBelow float64) (lower, upper float64) {
 	w, e := ref.ColWestLon(b.X, b.H), ref.ColWestLon(b.X+1, b.H)
 	n, s := ref.RowNorthLat(b.Y, b.H), ref.RowNorthLat(b.Y+1, b.H)
 	c00, c10, c01, c11 := ecef(w, n, 0), ecef(e, n, 0), ecef(w, s, 0), ecef(e, s, 0)
 	const k = 24
 	min := math.Inf(1)
+	side0 := math.Max(math.Max(len3(sub3(c00, c10)), len3(sub3(c01, c11))), math.Max(len3(sub3(c00, c01)), len3(sub3(c10, c11))))
+	g0 := side0 / (k - 1) * math.Sqrt2 / 2
 	for i := 0; i < k; i++ {
 		u := float64(i) / (k - 1)
 		for j := 0; j < k; j++ {
@@ -68,6 +72,9 @@ func footprintDistance(b ref.Box, a3, b3 [3]float64) (lower, upper float64) {
 			}
 			if dd := distPointSeg(p, a3, b3); dd < min {
 				min = dd
+				if min-g0 <= stopBelow {
+					return math.Max(0, min-g0), min
+				}
 			}
 		}
 	}
@@ -130,6 +137,15 @@ func genC14(t *rapid.T) *CaseC14 {
 	}
 	if tiny && u > 0.25 {
 		u = 0.25
+	}
+	if !tiny && c.H >= 8 && rapid.IntRange(0, 99).Draw(t, "wideRadius") == 0 {
+		// a wide corridor: 2.5 .. 13 voxel widths around a short segment; the vertical zoom is lowered until one
+		// vertical layer suffices, so the search box stays at a few thousand voxels
+		u = rapid.Float64Range(2.5, 13).Draw(t, "uWide")
+		c.E = clampPt(Pt{F64(c.S.Lon.V() + math.Max(-2, math.Min(2, dx))*wl), F64(c.S.Lat.V() - math.Max(-2, math.Min(2, dy))*hl), c.S.Alt})
+		for c.V > 0 && math.Ldexp(1, int(25-c.V)) < u*widthM {
+			c.V--
+		}
 	}
 	r := math.Min(u*widthM, c14RadiusCap(c.S, c.E, c.H))
 	c.U = F64(r / widthM)
@@ -307,12 +323,17 @@ func checkC14(c *CaseC14, fl *Fails) {
 		}
 	}
 	// no added voxel farther than the radius (independent distance: rigorous lower bound from footprint samples)
+	lowerOf := map[[2]int64]float64{} // per footprint (the vertical index does not matter)
 	for _, id := range measured {
 		if _, onLine := lineSet[id]; onLine {
 			continue
 		}
 		b, _ := ref.ParseExt(id)
-		lower, _ := footprintDistance(b, a3, b3)
+		lower, seen := lowerOf[[2]int64{b.X, b.Y}]
+		if !seen {
+			lower, _ = footprintDistance(b, a3, b3, 1.001*r+1e-6)
+			lowerOf[[2]int64{b.X, b.Y}] = lower
+		}
 		if lower > 1.001*r+1e-6 {
 			// root-cause split: the library's distance comes from the GJK routine of its dependency closest_go, applied
 			// to the flat hull it builds (the voxel's corners with the latitude passed as height). If a fresh evaluation
@@ -386,7 +407,7 @@ func init() {
 		// translated along its row (same zooms, bit-identical radius, other columns - near and ~0.18 degrees away), and
 		// the original is checked again afterwards
 		Related: func(c *CaseC14) []*CaseC14 {
-			if c.H < 4 || c.Radius.V() <= 0 || math.Float64bits(c.S.Lon.V())%3 != 0 {
+			if c.H < 4 || c.Radius.V() <= 0 || c.U.V() > 2.5 || math.Float64bits(c.S.Lon.V())%3 != 0 {
 				return nil
 			}
 			wl, _, _ := localSizes(c.S, c.H, c.V)
